@@ -730,6 +730,23 @@ example : locSlice [0, 5, 18, 25, 28] (some 40) none = some ⟨3, 3, [40, 40]⟩
 example : locSliceParts (fun (k : Nat) => k) [[0, 2], [5, 9], [18, 20], [25, 28]] ⟨1, 3, [6, 18, 25, 28]⟩ (some 6) none =
     some [[9], [18, 20], [25, 28]] := by decide
 
+/-- **`set_index` with divisions that span the data** (given by the user, or computed as quantiles) reports truthful
+    divisions: `set_partitions_pre` routes every row to the interval of the divisions holding its key, the staged task
+    shuffle delivers exactly those rows, and the per-partition sort keeps them — proved in the C40 development
+    (`C40.set_index_tasks_truthful`, all shuffle hypotheses discharged; `C40.set_index_truthful` for any shuffle that
+    only delivers input rows to the partition named by `_partitions`; `C40.set_index_presorted_truthful` for the
+    shortcut that publishes `mins + [maxes[-1]]`). Re-exported here as the C41 path theorem. What is NOT covered is
+    the optimizer moving a Filter / Head / Tail below a set_index with COMPUTED divisions (known findings). -/
+theorem set_index_truthful {β : Type} (key : β → Nat) (divs : List Nat) (k S : Nat) (parts : List (List β)) (d0 dl : Nat)
+    (hs : divs.Pairwise (· ≤ ·)) (h2 : 2 ≤ divs.length) (h0 : divs.head? = some d0) (hl : divs.getLast? = some dl)
+    (hspan : ∀ r ∈ parts.flatten, d0 ≤ key r ∧ key r ≤ dl)
+    (hk : 0 < k) (hkS : parts.length ≤ k ^ S) (hpos : 0 < parts.length) :
+    Truthful key divs (Dask.SortValues.sortValuesTasks (fun r => some (key r)) divs true true k S parts) :=
+  Dask.C40.set_index_tasks_truthful key divs k S parts d0 dl hs h2 h0 hl hspan hk hkS hpos
+
+example : Dask.SortValues.sortValuesTasks (fun (r : Nat) => some r) [0, 3, 5] true true 2 1 [[4, 0, 3], [5, 1]] =
+    [[0, 1], [3, 4, 5]] := by decide
+
 /-- **index-aligned binary operations** (index merge / join, `concat(axis=1)`, arithmetic between co-aligned
     frames — after `align_partitions` both inputs have the same divisions): if every row of output partition `j`
     carries the index key of some row of partition `j` of one of the inputs, the common divisions stay truthful. -/
